@@ -496,7 +496,12 @@ def parse_unpack_pattern(lhs: ast.Tuple | ast.List) -> UnpackPattern:
         else None
     )
     right = lhs.elts[len(left) + 1 :]
-    assert isinstance(starred, ast.Name | None), "Python grammar"
+    # The Python grammar allows any assignment target after the star, for example
+    # `*(a, b), = xs` or `*s.x, = xs`
+    if not isinstance(starred, ast.Name | None):
+        raise GuppyError(
+            UnsupportedError(starred, "Starred targets other than plain variables")
+        )
     return UnpackPattern(left, starred, right)
 
 
